@@ -286,27 +286,35 @@ Theorem C08_square_pow2_m1_total_exact : forall fresh, Injective fresh -> (foral
       exists rv, bvals (bc s') asg rs rv /\ decode be rv = decode be xv * decode be xv.
 Proof. exact add_square_pow2_m1_total_exact. Qed.
 
-(* ---- the models above ARE the source: second tie (translator T19) ------------------------------------------------------ *)
-(* gen_<f> (Generated/ArithGen08.v) is derived by translator/t19_mul_gen.py from the CURRENT text of
+(* ---- the models above ARE the source: second tie (translators T19, T22) ------------------------------------------------ *)
+(* gen_<f> (Generated/ArithGen08.v) is derived by translator/t19_mul_gen.py (add_mul_wallace: its extension
+   translator/t22_wallace.py) from the CURRENT text of
    cirbo/synthesis/generation/arithmetics/multiplication.py and square.py, statement by statement, on every run of the
-   check (Python ints as Z; lists, item stores, append, deque.popleft with Python semantics: Model/PyPrims.v and
-   PyPrims08.v; `while` loops and the functions that call themselves on the fuel of the hand model; the summation /
-   subtraction generators of C07 / C09 are the hand models, of which only the signatures are read; the primitives are
-   add_gate_from_tt and the regenerated cells add_sum2 / add_sum3).  Each of them runs exactly like the hand model the
-   theorems above are about: same result, same final state, same error -- for every argument, every host state and
-   every naming function.  Side conditions: the private last_step_sum_with_new_powers_sum is not called with ONE empty
+   check (Python ints as Z; lists, item stores, append, deque.popleft with Python semantics: Model/PyPrims.v,
+   PyPrims08.v and PyPrimsWal.v; `while` loops and the functions that call themselves on the fuel of the hand model; the
+   two nested closures of add_mul_wallace as local state-passing functions, the list the closure `_zero` mutates being
+   passed in and handed back; the summation / subtraction generators of C07 / C09 are the hand models, of which only the
+   signatures are read; the primitives are add_gate_from_tt and the regenerated cells add_sum2 / add_sum3).  Each of them
+   runs exactly like the hand model the theorems above are about: same result, same final state, same error -- for every
+   argument, every host state and every naming function (for add_mul_wallace also one that hands out the placeholder
+   string, and also where the hand model runs out of fuel: an empty second operand).  Side conditions: the private
+   last_step_sum_with_new_powers_sum is not called with ONE empty
    operand and the other of two or more bits (Python: ValueError from max([]) inside add_sum_n_weighted_bits, hand model:
    IndexError; Proofs/ArithGen08F.v: last_step_empty_operand_differs; never the case inside the Karatsuba recursion,
    which pads to equal widths first, so MulMode.KARATSUBA needs no side condition); a negative size_of_input_a of
    generate_mul is a Python slice from the end, which the nat parameter of the hand model cannot express
-   (generate_mul_negative_size_differs).  NOT regenerated: add_mul_wallace (nested closures over a mutable cell); its
-   entry of _process_mul is the hand model itself.  py_bare_labels n = [str(0); ...; str(n-1)] are the inputs of
-   Circuit.bare_circuit(n). *)
+   (generate_mul_negative_size_differs).  add_mul_wallace (Proofs/ArithGen08W*.v): the source keeps its matrix as a list of
+   columns of labels with '_PLACEHOLDER_STR_' for "no gate", the hand model as a list of rows of option cells; the
+   invariant of every loop is that the one is the transposition of the other (c = colsof (n + m) rows), and the lazily
+   created constant-false gate of the last loop is created by the hand model up front exactly when a gap exists
+   (has_gap).  Every entry of the regenerated _process_mul is a regenerated function.  py_bare_labels n =
+   [str(0); ...; str(n-1)] are the inputs of Circuit.bare_circuit(n). *)
 Theorem C08_generators_regenerated :
   (forall a b be fresh s, run fresh (gen_add_mul a b be) s = run fresh (add_mul a b be) s) /\
   (forall a b be fresh s, run fresh (gen_add_mul_alter a b be) s = run fresh (add_mul_alter a b be) s) /\
   (forall a b be fresh s, run fresh (gen_add_mul_pow2_m1 a b be) s = run fresh (add_mul_pow2_m1 a b be) s) /\
   (forall a b be fresh s, run fresh (gen_add_mul_dadda a b be) s = run fresh (add_mul_dadda a b be) s) /\
+  (forall a b be fresh s, run fresh (gen_add_mul_wallace a b be) s = run fresh (add_mul_wallace a b be) s) /\
   (forall a b be fresh s,
      (length a = 0%nat -> (length b <= 1)%nat) -> (length b = 0%nat -> (length a <= 1)%nat) ->
      run fresh (gen_last_step_sum_with_new_powers_sum a b be) s
